@@ -1459,7 +1459,18 @@ class Emitter:
         if k == "IfStmt" and not n.get("hasElse") and not n.get("hasInit") and not n.get("hasVar"):
             then = n["inner"][-1]
             if self.is_log_stmt(then):
-                return True
+                # `if (f(..)) XBT_DEBUG(..);` written by the program: with the units.json key "keep_log_conditions" the
+                # call in the condition is kept (the `if` is emitted with an empty branch) and only the macro's own
+                # `if (enabled)` test goes away with the log; without the key the whole statement is dropped
+                if not self.cfg.get("keep_log_conditions"):
+                    return True
+
+                def foreign_call(x):
+                    if x.get("kind") in ("CallExpr", "CXXMemberCallExpr", "CXXOperatorCallExpr"):
+                        c = skip(x["inner"][0]) if x.get("inner") else {}
+                        return (c.get("referencedDecl") or {}).get("name") not in (LOG_CALLS | DROP_CALLS)
+                    return False
+                return not contains(n["inner"][0], foreign_call)
             # the macro's own block: { s_xbt_log_event_t _log_ev; _log_ev.f = ...; _xbt_log_event_log(&_log_ev, ...); }
             # (an `if` of the program that merely CONTAINS a log statement is NOT a log statement)
             return then.get("kind") == "CompoundStmt" and len(then.get("inner", [])) >= 1 and \
